@@ -4,10 +4,11 @@ CONSTANTS
   AllowPanic = FALSE
   NRange = {1, 2}
   MaxTicks = 1
-  MaxCyc = 2
-  MaxLen = 16
-  WithSecond = FALSE
+  MaxCyc = 1
+  MaxLen = 14
+  WithSecond = TRUE
 CONSTRAINT Bound
+ACTION_CONSTRAINT TicksWhileRunning
 INVARIANT TypeOK
 INVARIANT GoroutineLifetime
 INVARIANT StatementHolds
